@@ -3,6 +3,16 @@
 import json, subprocess
 ALL=[f"C{i:02d}" for i in range(1,21)]
 CHECKS={
+ "C06": dict(level="exploration", engine="E1-dfs",
+   technique="deviation-bounded stateless DFS over generated sessions against the real Stream on a scripted in-memory transport; wire bytes from an independent encoder",
+   text="Every session within the bounds (<=2/3 messages, 8 payload length classes up to the configured maximum, every fragmentation into <=3 fragments incl. empty ones, ping/pong in any gap, a cut at any byte position or byte-by-byte delivery; all combinations of up to 2 (quick) / 3 (thorough) such deviations) is pushed through NextFrame, AsyncNextFrame, NextMessage and AsyncNextMessage (inline and deferred completion) and the delivered sequence is compared with the generated one.",
+   note="In-memory transport (the real adapter/socket path is covered by C17/C18); payload contents are a position-dependent pattern; the handshake piggy-back variant lives in C18.",
+   design="4/C06"),
+ "C07": dict(level="exploration", engine="E1-dfs",
+   technique="exhaustive enumeration of byte strings / header products x cut sets through the real FrameCodec.Decode, compared with an independent reference parser",
+   text="All byte strings of length <=4 over a 9-letter alphabet, the structured product of first byte x mask bit x length encoding (minimal and non-minimal) x declared length (0..2^64-1 incl. >=2^63) x payload presence, and two frames back to back; each fed whole, with every single cut, every pair of cuts (short inputs) and byte by byte; plus encode->decode round trips for all 256 first bytes x mask x 8 length classes.",
+   note="The decoder is driven the way CodecConn drives it (append segment, Decode until ErrNeedMore); buffer growth is bounded by 2*(input+max+14)+1024 bytes.",
+   design="4/C07"),
  "C09": dict(level="model_checking", engine="E2-bfs",
    technique="explicit-state BFS to fixpoint over the real ByteBuffer in lock-step with a three-region reference model",
    text="All reachable states of a real ByteBuffer (NewByteBuffer and zero value, so every reallocation step is crossed) under the whole public API with integer domains {MinInt,-1,0,1,2,3,len,len+1,MaxInt}, saved+readable+written <= 6/10 (quick) or 9/18 (thorough); after every transition all three regions, every live slot and the length sum are compared with the model and a panic is a violation. Histories of any length within the length bound are covered.",
@@ -33,6 +43,8 @@ def main():
        "engines":[
          {"name":"E2-bfs","path":"mc/engine/bfs.go","serves_properties":[k for k,v in CHECKS.items() if v["engine"]=="E2-bfs"],
           "kind_free_text":"explicit-state breadth-first search; successor = replay of the stored shortest path on a fresh real object + one operation; canonical keys; runs to fixpoint or stated depth"},
+         {"name":"E1-dfs","path":"mc/engine/dfs.go","serves_properties":[k for k,v in CHECKS.items() if v["engine"]=="E1-dfs"],
+          "kind_free_text":"stateless depth-first exploration over choice points (Pick = free, Deviate = costs one deviation, bounded); sharded over goroutines or worker processes; failing cases re-executed 4x before they are believed"},
        ],
        "checks":[], "not_applicable":[],
        "notes":"All checks are bounded exhaustive explorations of the real implementation; see DESIGN.md."}
